@@ -14,6 +14,9 @@ TRIVIAL_SIGS = ()
 CASE_TIMEOUT = 10.0
 
 def cases(tier, rng):
+    # deep nesting: the interpreter's recursion limit is a runtime effect outside the model (known finding F18)
+    for s in ['{' * 200 + '}' * 200, '$' + '{' * 180 + 'x' + '}' * 180 + '$', '\\emph{' * 150 + '}' * 150]:
+        yield {'tol': False, 'ctx': 'default', 's': s, 'deep': True}
     for c in parseprops.base_cases(tier, rng, strict_only=True):
         yield c
     # fault injection on generated well-formed documents
@@ -26,7 +29,10 @@ def cases(tier, rng):
         for (pos, txt) in docgen.fault_sites(d, rng, ctxname):
             yield {'tol': False, 'ctx': ctxname if ctxname == 'default' else docgen.ctx_of(ctxname), 's': s[:pos] + txt + s[pos:], 'fault': [pos, txt], 'base': s}
 
-to_line = parsecase.to_line
+def to_line(c):
+    if c.get('deep'):
+        return None
+    return parsecase.to_line(c)
 
 def run_impl(c):
     w, kind, p = parsecase.parse(c)
